@@ -5,6 +5,7 @@ from mirsym.models import ModelSerializer, Formatter
 
 ID = 'C15'
 PROGS = ['default', 'serde']
+NATIVE = 'serde'
 NAMES = {'Cargo': 'cargo', 'Gem': 'gem', 'Golang': 'golang', 'Maven': 'maven', 'Npm': 'npm', 'NuGet': 'nuget', 'PyPI': 'pypi'}
 PT = 'package_type::PackageType'
 
@@ -18,6 +19,8 @@ def h_agree(L, variant):
     I = L.I
     v = Adt('PackageType', variant, [])
     want = list(NAMES[variant].encode())
+    has_serde = 'serde' in L.I.prog.features
+    L.expect_native({'op': 'ptype', 's': SymStr(want)}, {'ok': dict({'name': SymStr(want)}, **({'serde': SymStr(want)} if has_serde else {}))})
     forms = {}
     forms['name()'] = list(sbytes(I.call('package_type::PackageType::name', [Ref([v], 0)])))
     f = Formatter()
@@ -104,6 +107,8 @@ def confirm(v, resp):
     if 'ok' in resp:
         o = resp['ok']
         forms = {hx(o[k]) for k in ('name', 'display', 'as_ref', 'into', 'package_type')}
+        if o.get('serde') is not None:
+            forms.add(hx(o['serde']))
         if len(forms) != 1:
             return 'string forms disagree: %r' % forms
         name = forms.pop()
